@@ -204,8 +204,11 @@ where
     // Channel to collect results from all attempts
     let (tx, mut rx) = mpsc::channel::<(usize, Result<S::Response, S::Error>)>(max_attempts);
 
-    // Spawn primary request
+    // Spawn primary request on the instance that was driven to readiness;
+    // hedges get fresh clones that are polled ready before being called
     let mut service_clone = service.clone();
+    let mut service = service;
+    std::mem::swap(&mut service_clone, &mut service);
     let req_clone = req.clone();
     let tx_clone = tx.clone();
     tokio::spawn(async move {
@@ -293,7 +296,10 @@ where
                             let r = req.clone();
                             let tx_c = tx.clone();
                             tokio::spawn(async move {
-                                let result = svc.call(r).await;
+                                let result = match futures::future::poll_fn(|cx| svc.poll_ready(cx)).await {
+                                    Ok(()) => svc.call(r).await,
+                                    Err(e) => Err(e),
+                                };
                                 let _ = tx_c.send((attempt_num, result)).await;
                             });
 
@@ -359,7 +365,10 @@ where
                     let r = req.clone();
                     let tx_c = tx.clone();
                     tokio::spawn(async move {
-                        let result = svc.call(r).await;
+                        let result = match futures::future::poll_fn(|cx| svc.poll_ready(cx)).await {
+                            Ok(()) => svc.call(r).await,
+                            Err(e) => Err(e),
+                        };
                         let _ = tx_c.send((i, result)).await;
                     });
                 }
